@@ -19,22 +19,29 @@ import (
 )
 
 type opSpec struct {
-	Kind        string `json:"op"` // fund release broadcast mine restart sleep redist split
-	V2          bool   `json:"v2,omitempty"`
-	Amount      string `json:"amount,omitempty"` // decimal hastings, or symbolic: bal, bal+1, pK, pK-1, pK+1 (prefix sums of the spendable values, descending)
-	Unc         bool   `json:"useUnconfirmed,omitempty"`
-	Existing    int    `json:"existingInputs,omitempty"`
-	Ref         int    `json:"ref,omitempty"` // number of the funded transaction (in order of creation); negative: counted from the latest
-	ViaWallet   bool   `json:"viaWallet,omitempty"`
-	Outputs     int    `json:"outputs,omitempty"`
-	FeePerB     string `json:"feePerByte,omitempty"`
-	N           int    `json:"n,omitempty"`
-	Min         string `json:"minAmount,omitempty"`
-	ToWallet    bool   `json:"toWallet,omitempty"`
-	NewCM       bool   `json:"newManager,omitempty"`
-	Blocks      int    `json:"blocks,omitempty"`      // lag: blocks that reach the manager but not the wallet store
-	ThenRelease bool   `json:"thenRelease,omitempty"` // fund: hand the transaction straight back to ReleaseInputs
-	probe       bool   // a fund of everything spendable issued by the runner after a failed call
+	Kind        string  `json:"op"` // fund release broadcast mine restart sleep redist split
+	V2          bool    `json:"v2,omitempty"`
+	Amount      string  `json:"amount,omitempty"` // decimal hastings, or symbolic: bal, bal+1, pK, pK-1, pK+1 (prefix sums of the spendable values, descending)
+	Unc         bool    `json:"useUnconfirmed,omitempty"`
+	Existing    int     `json:"existingInputs,omitempty"`
+	Ref         int     `json:"ref,omitempty"` // number of the funded transaction (in order of creation); negative: counted from the latest
+	ViaWallet   bool    `json:"viaWallet,omitempty"`
+	Outputs     int     `json:"outputs,omitempty"`
+	FeePerB     string  `json:"feePerByte,omitempty"`
+	N           int     `json:"n,omitempty"`
+	Min         string  `json:"minAmount,omitempty"`
+	ToWallet    bool    `json:"toWallet,omitempty"`
+	NewCM       bool    `json:"newManager,omitempty"`
+	Blocks      int     `json:"blocks,omitempty"`      // lag: blocks that reach the manager but not the wallet store
+	ThenRelease bool    `json:"thenRelease,omitempty"` // fund: hand the transaction straight back to ReleaseInputs
+	Into        int     `json:"into,omitempty"`        // fund: add to the transaction object of an earlier funded transaction (negative: from the latest)
+	At          string  `json:"at,omitempty"`          // window / fault: the interface call of the wallet at which the event happens
+	Sub         *opSpec `json:"sub,omitempty"`         // window / fault: the wallet call during which it happens
+	Inner       *opSpec `json:"inner,omitempty"`       // window: the call another goroutine makes at that moment
+	First       string  `json:"first,omitempty"`       // unblind: which read API is called first after the stretch without reads
+	Ms          int     `json:"ms,omitempty"`          // pause
+	Partial     bool    `json:"partial,omitempty"`     // sleep: only until the oldest reservation has run out
+	probe       bool    // a fund of everything spendable issued by the runner after a failed call
 }
 
 // zlit renders a currency as a Z term; large literals are written k*1e20+r
@@ -69,6 +76,7 @@ func (e *env) us(d time.Duration) uint64 { return uint64(d / time.Microsecond) }
 
 // begin waits for an unambiguous instant, and tells the model what time it is.
 func (e *env) begin() time.Duration {
+	e.justRestarted, e.afterRestart = false, e.justRestarted
 	t := e.settle()
 	// the model's clock runs in whole microseconds
 	t = t / time.Microsecond * time.Microsecond
@@ -88,15 +96,30 @@ func (e *env) aids(ids []types.SiacoinOutputID) []uint64 {
 
 // resolve turns a symbolic amount into hastings using the oracle's view.
 func (e *env) resolve(a string, t time.Duration) types.Currency {
+	if e.blind {
+		// no read of the manager inside a stretch without reads: amounts refer to the
+		// spendable values as they were when the stretch began
+		return e.resolveWith(a, e.blindExp, e.blindSum)
+	}
 	exp, sum := e.expected(t)
+	return e.resolveWith(a, exp, sum)
+}
+
+var maxCurrency = types.NewCurrency(^uint64(0), ^uint64(0))
+
+func (e *env) resolveWith(a string, exp map[types.SiacoinOutputID]types.Currency, sum types.Currency) types.Currency {
 	switch {
+	case a == "max":
+		return maxCurrency
+	case a == "half":
+		return maxCurrency.Div64(2)
 	case a == "" || a == "0":
 		return types.ZeroCurrency
 	case a == "bal":
 		return sum
 	case a == "bal+1":
 		return sum.Add(types.NewCurrency64(1))
-	case strings.HasPrefix(a, "U"): // the largest unconfirmed wallet output (held or not) divided by k
+	case strings.HasPrefix(a, "U") && !e.blind: // the largest unconfirmed wallet output (held or not) divided by k
 		k, _ := strconv.Atoi(a[1:])
 		_, created := e.poolView()
 		var mx types.Currency
@@ -152,13 +175,37 @@ func (e *env) resolve(a string, t time.Duration) types.Currency {
 // observe reads Balance() and SpendableOutputs(), judges them against the
 // oracle, and returns the observation for the model.
 func (e *env) observe(res string, t time.Duration, afterFailure bool) {
-	bal, err := e.w.Balance()
-	if err != nil {
-		e.fail("balance-error", "%v", err)
+	if e.blind || e.noViews {
+		// a stretch of operations without any read call (or the first of two calls that
+		// overlapped in time): only the result goes to the model
+		if e.blind {
+			e.stats["blind:ops-without-read"]++
+		}
+		ob := fmt.Sprintf("mk_obs (%s) (mk_bal 0 0 0 0) [] false", res)
+		last := e.trace[len(e.trace)-1]
+		e.trace[len(e.trace)-1] = strings.Replace(last, ", None)", ", Some ("+ob+"))", 1)
+		return
 	}
-	outs, err := e.w.SpendableOutputs()
-	if err != nil {
-		e.fail("spendable-outputs-error", "%v", err)
+	var bal wallet.Balance
+	var outs []types.SiacoinElement
+	var err error
+	readBal := func() {
+		if bal, err = e.w.Balance(); err != nil {
+			e.fail("balance-error", "%v", err)
+		}
+	}
+	readOuts := func() {
+		if outs, err = e.w.SpendableOutputs(); err != nil {
+			e.fail("spendable-outputs-error", "%v", err)
+		}
+	}
+	if e.outsFirst {
+		e.outsFirst = false
+		readOuts()
+		readBal()
+	} else {
+		readBal()
+		readOuts()
 	}
 	e.checkWindow(t)
 	exp, expSum := e.expected(t)
@@ -243,7 +290,28 @@ func (e *env) observe(res string, t time.Duration, afterFailure bool) {
 		}
 	}
 	e.stats["observations"]++
-	ob := fmt.Sprintf("mk_obs (%s) (mk_bal %s %s %s %s) %s", res, zlit(bal.Spendable), zlit(bal.Confirmed), zlit(bal.Unconfirmed), zlit(bal.Immature), nlist(ids))
+	if !e.tainted {
+		// boundary shapes met at this observation
+		h := e.height()
+		for _, le := range e.ledger {
+			if le.mat == h && h > 0 {
+				e.stats["boundary:output-exactly-at-maturity-height"]++
+				break
+			}
+		}
+		live, dead := false, false
+		for _, r := range e.reserved {
+			if t < r.lo+e.spec.Cfg.resv() {
+				live = true
+			} else {
+				dead = true
+			}
+		}
+		if live && dead {
+			e.stats["boundary:some-reservations-expired-some-not"]++
+		}
+	}
+	ob := fmt.Sprintf("mk_obs (%s) (mk_bal %s %s %s %s) %s true", res, zlit(bal.Spendable), zlit(bal.Confirmed), zlit(bal.Unconfirmed), zlit(bal.Immature), nlist(ids))
 	// attach to the last traced op
 	last := e.trace[len(e.trace)-1]
 	e.trace[len(e.trace)-1] = strings.Replace(last, ", None)", ", Some ("+ob+"))", 1)
@@ -314,14 +382,151 @@ func (e *env) isReservedBefore(id types.SiacoinOutputID, t time.Duration) bool {
 	return ok && r.hi <= t && t < r.lo+e.spec.Cfg.resv()
 }
 
-func (e *env) doFund(o opSpec) (failed bool) {
-	t := e.begin()
-	amount := e.resolve(o.Amount, t)
-	exp, expSum := e.expected(t)
-	spent, created := e.poolView()
-	outstanding := e.outstanding(t)
+// oracle is what the harness knows about the wallet's state at the start of a call.
+type oracle struct {
+	t           time.Duration
+	exp         map[types.SiacoinOutputID]types.Currency
+	expSum      types.Currency
+	spent       map[types.SiacoinOutputID]bool
+	created     map[types.SiacoinOutputID]types.Currency
+	outstanding []*fundedTx
+}
+
+// takeOracle reads the manager's pool. Inside a stretch without reads it is
+// taken only after the wallet call (a funding call changes neither the ledger
+// nor the pool, and its reservations are recorded after the monitors ran).
+func (e *env) takeOracle(t time.Duration) *oracle {
+	or := &oracle{t: t, outstanding: e.outstanding(t)}
+	or.exp, or.expSum = e.expected(t)
+	or.spent, or.created = e.poolView()
+	return or
+}
+
+// fundRaw is what one FundTransaction / FundV2Transaction call returned; callFund
+// touches no bookkeeping of the harness, so it may run on another goroutine.
+type fundRaw struct {
+	f        *fundedTx
+	sel      []types.SiacoinOutputID
+	change   types.Currency
+	err      error
+	panicked any
+	existing int
+	notes    []failure
+}
+
+func (e *env) callFund(o opSpec, amount types.Currency, tag int, into *fundedTx) (raw fundRaw) {
+	defer func() {
+		if p := recover(); p != nil {
+			raw.panicked = p
+		}
+	}()
+	f := &fundedTx{v2: o.V2, unc: o.Unc, lo: e.clock()}
+	raw.f = f
+	note := func(kind, format string, a ...any) {
+		raw.notes = append(raw.notes, failure{kind, fmt.Sprintf(format, a...)})
+	}
+	if o.V2 {
+		txn := types.V2Transaction{SiacoinOutputs: []types.SiacoinOutput{{Address: types.VoidAddress, Value: amount}}}
+		if into != nil {
+			// the caller adds more funds to the transaction object it already holds
+			txn = into.v2txn
+			txn.MinerFee = txn.MinerFee.Add(amount)
+		}
+		for i := 0; i < o.Existing && into == nil; i++ {
+			txn.SiacoinInputs = append(txn.SiacoinInputs, types.V2SiacoinInput{Parent: types.SiacoinElement{ID: types.SiacoinOutputID{0xEE, byte(i), byte(i >> 8), byte(tag)}}})
+		}
+		raw.existing = len(txn.SiacoinInputs)
+		nOut := len(txn.SiacoinOutputs)
+		f.basis, f.toSignV2, raw.err = e.w.FundV2Transaction(&txn, amount, o.Unc)
+		f.v2txn = txn
+		if raw.err == nil {
+			for _, in := range txn.SiacoinInputs[min(raw.existing, len(txn.SiacoinInputs)):] {
+				raw.sel = append(raw.sel, in.Parent.ID)
+			}
+			if len(f.toSignV2) != len(raw.sel) {
+				note("fund-tosign", "FundV2Transaction added %d inputs but asks for %d signatures", len(raw.sel), len(f.toSignV2))
+			}
+			for i, idx := range f.toSignV2 {
+				if idx != raw.existing+i {
+					note("fund-tosign", "FundV2Transaction appended its inputs at positions %d.. but asks for a signature of input %d", raw.existing, idx)
+					break
+				}
+			}
+			for _, so := range txn.SiacoinOutputs[min(nOut, len(txn.SiacoinOutputs)):] {
+				raw.change = raw.change.Add(so.Value)
+				if so.Address != e.addr {
+					note("fund-conservation", "change output is not paid to the wallet")
+				}
+			}
+		}
+	} else {
+		txn := types.Transaction{SiacoinOutputs: []types.SiacoinOutput{{Address: types.VoidAddress, Value: amount}}}
+		if into != nil {
+			txn = into.v1txn
+			txn.MinerFees = append(append([]types.Currency(nil), txn.MinerFees...), amount)
+		}
+		for i := 0; i < o.Existing && into == nil; i++ {
+			txn.SiacoinInputs = append(txn.SiacoinInputs, types.SiacoinInput{ParentID: types.SiacoinOutputID{0xEE, byte(i), byte(i >> 8), byte(tag)}})
+		}
+		raw.existing = len(txn.SiacoinInputs)
+		nOut := len(txn.SiacoinOutputs)
+		f.toSignV1, raw.err = e.w.FundTransaction(&txn, amount, o.Unc)
+		f.v1txn = txn
+		if raw.err == nil {
+			for _, in := range txn.SiacoinInputs[min(raw.existing, len(txn.SiacoinInputs)):] {
+				raw.sel = append(raw.sel, in.ParentID)
+			}
+			if len(f.toSignV1) != len(raw.sel) {
+				note("fund-tosign", "FundTransaction added %d inputs but asks for %d signatures", len(raw.sel), len(f.toSignV1))
+			}
+			for i, h := range f.toSignV1 {
+				if i < len(raw.sel) && h != types.Hash256(raw.sel[i]) {
+					note("fund-tosign", "FundTransaction asks for a signature of an input it did not add")
+					break
+				}
+			}
+			for _, so := range txn.SiacoinOutputs[min(nOut, len(txn.SiacoinOutputs)):] {
+				raw.change = raw.change.Add(so.Value)
+				if so.Address != e.addr {
+					note("fund-conservation", "change output is not paid to the wallet")
+				}
+			}
+		}
+	}
+	f.existing = raw.existing
+	f.hi = e.clock()
+	return raw
+}
+
+// intoTarget: the funded transaction a re-funding call adds to (the same object is
+// handed to the wallet a second time), or nil.
+func (e *env) intoTarget(o opSpec) *fundedTx {
+	if o.Into == 0 {
+		return nil
+	}
+	f := e.refTx(o.Into)
+	if f == nil || f.released || f.inPool || f.superseded || f.v2 != o.V2 || f.existing != 0 || len(f.txInputs) != f.nInputs() || e.clock() >= f.lo+e.spec.Cfg.resv()-10*margin {
+		return nil
+	}
+	return f
+}
+
+func (f *fundedTx) nInputs() int {
+	if f.v2 {
+		return len(f.v2txn.SiacoinInputs)
+	}
+	return len(f.v1txn.SiacoinInputs)
+}
+
+// finishFund judges one funding call against the oracle and records it.
+func (e *env) finishFund(o opSpec, amount types.Currency, or *oracle, raw fundRaw, into *fundedTx) (failed bool) {
+	t, f, sel, change, err := or.t, raw.f, raw.sel, raw.change, raw.err
+	f.lo = t
+	for _, n := range raw.notes {
+		e.fail(n.kind, "%s", n.detail)
+	}
 	var uncSum types.Currency
-	for id, v := range created {
+	for id, v := range or.created {
 		// unconfirmed outputs a transaction of this version can spend
 		if pv2, ok := e.creatorV2(id); ok && pv2 == o.V2 && !e.isReservedBefore(id, t) {
 			uncSum = uncSum.Add(v)
@@ -330,64 +535,13 @@ func (e *env) doFund(o opSpec) (failed bool) {
 	if o.Unc {
 		// the branch "unconfirmed candidates must be unreserved" is exercised when a
 		// same-version unconfirmed output is held by an outstanding request at this call
-		for id := range created {
+		for id := range or.created {
 			if pv2, ok := e.creatorV2(id); ok && pv2 == o.V2 && e.isReservedBefore(id, t) {
 				e.stats["fund:useUnconfirmed-with-reserved-unconfirmed-candidate"]++
 				break
 			}
 		}
 	}
-	f := &fundedTx{v2: o.V2, existing: o.Existing, unc: o.Unc, lo: t}
-	var err error
-	var sel []types.SiacoinOutputID
-	var change types.Currency
-	if o.V2 {
-		txn := types.V2Transaction{SiacoinOutputs: []types.SiacoinOutput{{Address: types.VoidAddress, Value: amount}}}
-		for i := 0; i < o.Existing; i++ {
-			txn.SiacoinInputs = append(txn.SiacoinInputs, types.V2SiacoinInput{Parent: types.SiacoinElement{ID: types.SiacoinOutputID{0xEE, byte(i), byte(len(e.funded))}}})
-		}
-		f.basis, f.toSignV2, err = e.w.FundV2Transaction(&txn, amount, o.Unc)
-		f.v2txn = txn
-		if err == nil {
-			for _, in := range txn.SiacoinInputs[min(o.Existing, len(txn.SiacoinInputs)):] {
-				sel = append(sel, in.Parent.ID)
-				if v, ok := e.known[in.Parent.ID]; ok && !v.Equals(in.Parent.SiacoinOutput.Value) {
-					e.fail("fund-conservation", "input %d carries value %s, the output is worth %s", e.aid(in.Parent.ID), curStr(in.Parent.SiacoinOutput.Value), curStr(v))
-				}
-			}
-			if len(f.toSignV2) != len(sel) {
-				e.fail("fund-tosign", "FundV2Transaction added %d inputs but asks for %d signatures", len(sel), len(f.toSignV2))
-			}
-			for _, so := range txn.SiacoinOutputs[1:] {
-				change = change.Add(so.Value)
-				if so.Address != e.addr {
-					e.fail("fund-conservation", "change output is not paid to the wallet")
-				}
-			}
-		}
-	} else {
-		txn := types.Transaction{SiacoinOutputs: []types.SiacoinOutput{{Address: types.VoidAddress, Value: amount}}}
-		for i := 0; i < o.Existing; i++ {
-			txn.SiacoinInputs = append(txn.SiacoinInputs, types.SiacoinInput{ParentID: types.SiacoinOutputID{0xEE, byte(i), byte(len(e.funded))}})
-		}
-		f.toSignV1, err = e.w.FundTransaction(&txn, amount, o.Unc)
-		f.v1txn = txn
-		if err == nil {
-			for _, in := range txn.SiacoinInputs[min(o.Existing, len(txn.SiacoinInputs)):] {
-				sel = append(sel, in.ParentID)
-			}
-			if len(f.toSignV1) != len(sel) {
-				e.fail("fund-tosign", "FundTransaction added %d inputs but asks for %d signatures", len(sel), len(f.toSignV1))
-			}
-			for _, so := range txn.SiacoinOutputs[1:] {
-				change = change.Add(so.Value)
-				if so.Address != e.addr {
-					e.fail("fund-conservation", "change output is not paid to the wallet")
-				}
-			}
-		}
-	}
-	f.hi = e.clock()
 	e.checkWindow(t)
 	storeTip, _ := e.ws.Tip()
 	basisH := storeTip.Height
@@ -400,18 +554,29 @@ func (e *env) doFund(o opSpec) (failed bool) {
 	} else {
 		f.basis = storeTip
 	}
-	what := fmt.Sprintf("Fund(v2=%v, amount=%s, existing=%d, useUnconfirmed=%v)", o.V2, curStr(amount), o.Existing, o.Unc)
-	e.trace = append(e.trace, fmt.Sprintf("(Fund %s %s %d %s, None)", coqBool(o.V2), zlit(amount), o.Existing, coqBool(o.Unc)))
+	what := fmt.Sprintf("Fund(v2=%v, amount=%s, existing=%d, useUnconfirmed=%v)", o.V2, curStr(amount), raw.existing, o.Unc)
+	e.trace = append(e.trace, fmt.Sprintf("(Fund %s %s %d %s, None)", coqBool(o.V2), zlit(amount), raw.existing, coqBool(o.Unc)))
 	e.stats["fund"]++
+	if amount.Equals(maxCurrency) || amount.Equals(maxCurrency.Div64(2)) {
+		e.stats["extreme:fund-amount-near-2^128"]++
+	}
+	if raw.existing >= 50 && into == nil {
+		e.stats["extreme:fund-with-many-existing-inputs"]++
+	}
 	var res string
-	if err != nil {
+	switch {
+	case raw.panicked != nil:
+		failed = true
+		res = "RErr"
+		e.fail("wallet-panic", "%s panicked: %v", what, raw.panicked)
+	case err != nil:
 		failed = true
 		res = "RErr"
 		e.stats["fund:err"]++
 		if !errors.Is(err, wallet.ErrNotEnoughFunds) {
 			e.fail("fund-unexpected-error", "%s: %v", what, err)
 		} else if !e.tainted {
-			avail := expSum
+			avail := or.expSum
 			if o.Unc {
 				avail = avail.Add(uncSum)
 			}
@@ -421,10 +586,29 @@ func (e *env) doFund(o opSpec) (failed bool) {
 				e.fail("fund-refuses-available-funds", "%s failed (%v) although %s is spendable according to the ledger, the pool and the reservations held", what, err, curStr(avail))
 			}
 		}
-	} else {
+	default:
 		f.inputs = sel
+		f.txInputs = sel
+		if into != nil {
+			f.txInputs = append(append([]types.SiacoinOutputID(nil), into.txInputs...), sel...)
+			if f.v2 {
+				f.toSignV2 = append(append([]int(nil), into.toSignV2...), f.toSignV2...)
+			} else {
+				f.toSignV1 = append(append([]types.Hash256(nil), into.toSignV1...), f.toSignV1...)
+			}
+			f.existing = into.existing
+			f.unc = f.unc || into.unc
+			into.superseded = true
+			f.mergedFrom = append(append([]*fundedTx(nil), into.mergedFrom...), into)
+			e.stats["history:fund-into-an-already-funded-transaction"]++
+		}
 		if !e.tainted {
-			sum := e.checkSelected(what, o.V2, sel, o.Unc, t, exp, created, spent, outstanding)
+			for _, in := range f.v2txn.SiacoinInputs[min(raw.existing, len(f.v2txn.SiacoinInputs)):] {
+				if v, ok := e.known[in.Parent.ID]; ok && !v.Equals(in.Parent.SiacoinOutput.Value) {
+					e.fail("fund-conservation", "input %d carries value %s, the output is worth %s", e.aid(in.Parent.ID), curStr(in.Parent.SiacoinOutput.Value), curStr(v))
+				}
+			}
+			sum := e.checkSelected(what, o.V2, sel, o.Unc, t, or.exp, or.created, or.spent, or.outstanding)
 			if !sum.Equals(amount.Add(change)) {
 				e.fail("fund-conservation", "%s: inputs are worth %s, amount + change = %s + %s", what, curStr(sum), curStr(amount), curStr(change))
 			}
@@ -439,7 +623,7 @@ func (e *env) doFund(o opSpec) (failed bool) {
 		e.funded = append(e.funded, f)
 		res = fmt.Sprintf("RFund %s %s %d", nlist(e.aids(sel)), zlit(change), basisH)
 		for _, id := range sel {
-			if _, ok := created[id]; ok {
+			if _, ok := or.created[id]; ok {
 				e.stats["fund:unconfirmed-input-selected"]++
 			}
 		}
@@ -457,6 +641,21 @@ func (e *env) doFund(o opSpec) (failed bool) {
 	return failed
 }
 
+func (e *env) doFund(o opSpec) (failed bool) {
+	t := e.begin()
+	amount := e.resolve(o.Amount, t)
+	into := e.intoTarget(o)
+	var or *oracle
+	if !e.blind {
+		or = e.takeOracle(t)
+	}
+	raw := e.callFund(o, amount, len(e.funded), into)
+	if or == nil {
+		or = e.takeOracle(t)
+	}
+	return e.finishFund(o, amount, or, raw, into)
+}
+
 func (e *env) doRelease(o opSpec) {
 	f := e.refTx(o.Ref)
 	if f == nil || f.inPool {
@@ -471,7 +670,7 @@ func (e *env) doRelease(o opSpec) {
 		e.w.ReleaseInputs([]types.Transaction{f.v1txn}, nil)
 	}
 	rel := map[types.SiacoinOutputID]bool{}
-	for _, id := range f.inputs {
+	for _, id := range f.txInputs {
 		rel[id] = true
 		delete(e.reserved, id)
 		e.releasedIDs[id] = true
@@ -484,7 +683,7 @@ func (e *env) doRelease(o opSpec) {
 		}
 	}
 	f.released = true
-	e.trace = append(e.trace, fmt.Sprintf("(Release %s, None)", nlist(e.aids(f.inputs))))
+	e.trace = append(e.trace, fmt.Sprintf("(Release %s, None)", nlist(e.aids(f.txInputs))))
 	e.stats["release"]++
 	e.observe("RUnit", t, false)
 }
@@ -556,7 +755,7 @@ func (e *env) inPool(id types.TransactionID) bool {
 func (e *env) doBroadcast(o opSpec) {
 	f := e.refTx(o.Ref)
 	t0 := e.clock()
-	if f == nil || f.existing != 0 || f.inPool || f.released || len(f.inputs) == 0 || t0 >= f.lo+e.spec.Cfg.resv()-10*margin ||
+	if f == nil || f.existing != 0 || f.inPool || f.released || f.superseded || len(f.inputs) == 0 || t0 >= f.lo+e.spec.Cfg.resv()-10*margin ||
 		(f.unc && f.basis != e.cm.Tip()) {
 		e.stats["skip:broadcast"]++
 		return
@@ -609,11 +808,25 @@ func (e *env) doBroadcast(o opSpec) {
 	}
 	if err != nil {
 		e.stats["broadcast:rejected"]++
-		e.fail("signed-transaction-rejected", "the funded and signed transaction (v2=%v, inputs %v, useUnconfirmed=%v) was rejected by the pool: %v", f.v2, e.aids(f.inputs), f.unc, err)
+		e.fail("signed-transaction-rejected", "the funded and signed transaction (v2=%v, inputs %v, useUnconfirmed=%v) was rejected by the pool: %v", f.v2, e.aids(f.txInputs), f.unc, err)
 		return
 	}
 	f.inPool = true
+	for _, g := range f.mergedFrom {
+		g.inPool = true
+	}
+	if len(f.mergedFrom) > 0 {
+		e.stats["history:broadcast-of-a-twice-funded-transaction"]++
+	}
 	e.stats["broadcast"]++
+	if len(e.cm.PoolTransactions()) > 0 && len(e.cm.V2PoolTransactions()) > 0 {
+		e.stats["mix:v1-and-v2-transactions-in-the-pool"]++
+	}
+	for _, out := range rec.outs {
+		if out.SiacoinOutput.Address != e.addr {
+			e.stats["mix:pool-output-not-owned-by-the-wallet"]++
+		}
+	}
 	if e.lagging() {
 		e.stats["broadcast:while-store-behind"]++
 	}
@@ -647,6 +860,29 @@ func (e *env) doMine(o opSpec) error {
 	diffs, err := e.mineRaw(to, 1)
 	if err != nil {
 		return err
+	}
+	// boundary shapes: a pool transaction and the pool transaction that created its input
+	// confirmed by the same block; the first block after a restart
+	after := e.poolIDs()
+	createdBy := map[types.SiacoinOutputID]bool{}
+	for id := range before {
+		if r := e.poolRecs[id]; r != nil && !after[id] {
+			for _, o := range r.outs {
+				createdBy[o.ID] = true
+			}
+		}
+	}
+	for id := range before {
+		if r := e.poolRecs[id]; r != nil && !after[id] {
+			for _, in := range r.ins {
+				if createdBy[in] {
+					e.stats["boundary:parent-and-child-confirmed-in-one-block"]++
+				}
+			}
+		}
+	}
+	if e.afterRestart {
+		e.stats["boundary:first-block-after-restart"]++
 	}
 	e.tracePoolRemoved(before)
 	e.traceDiffs(diffs)
@@ -760,7 +996,7 @@ func (e *env) doRestart(o opSpec) error {
 		e.cm = chain.NewManager(dbs, tipState)
 	}
 	var err error
-	e.w, err = wallet.NewSingleAddressWallet(e.pk, e.cm, e.ws, e.syncer, e.spec.Cfg.opts()...)
+	e.w, err = e.newWallet()
 	if err != nil {
 		return err
 	}
@@ -806,6 +1042,7 @@ func (e *env) doRestart(o opSpec) error {
 	}
 	e.trace = append(e.trace, fmt.Sprintf("(Restart [%s], None)", strings.Join(ptxs, "; ")))
 	e.stats["restart"]++
+	e.justRestarted = true
 	if len(after) > 0 {
 		e.stats["restart:pool-nonempty"]++
 	}
@@ -814,8 +1051,12 @@ func (e *env) doRestart(o opSpec) error {
 }
 
 // doSleep lets every reservation held run out (short reservation period only).
-func (e *env) doSleep() {
+func (e *env) doSleep(o opSpec) {
 	e.doSyncIfLagging()
+	if o.Partial {
+		e.doSleepPartial()
+		return
+	}
 	if !e.spec.Cfg.Short {
 		e.stats["skip:sleep"]++
 		return
@@ -898,38 +1139,109 @@ func (e *env) resolveRedist(o opSpec, fpb types.Currency, t time.Duration) types
 	return amount
 }
 
+type redRaw struct {
+	basis    types.ChainIndex
+	txns     []types.V2Transaction
+	toSign   [][]int
+	err      error
+	panicked any
+	hi       time.Duration
+}
+
+func (e *env) callRedist(outputs int, amount, fpb types.Currency) (raw redRaw) {
+	defer func() {
+		if p := recover(); p != nil {
+			raw.panicked = p
+		}
+		raw.hi = e.clock()
+	}()
+	raw.basis, raw.txns, raw.toSign, raw.err = e.w.Redistribute(outputs, amount, fpb)
+	return
+}
+
+func (e *env) redistAmount(o opSpec, t time.Duration) (amount, fpb types.Currency) {
+	fpb = parseCur(o.FeePerB)
+	if o.FeePerB == "max" {
+		fpb = maxCurrency
+	}
+	if strings.HasPrefix(o.Amount, "R:") && !e.blind {
+		return e.resolveRedist(o, fpb, t), fpb
+	}
+	return e.resolve(o.Amount, t), fpb
+}
+
 func (e *env) doRedist(o opSpec) (failed bool) {
 	t := e.begin()
-	fpb := parseCur(o.FeePerB)
-	cs := e.cm.TipState()
-	var amount types.Currency
-	if strings.HasPrefix(o.Amount, "R:") {
-		amount = e.resolveRedist(o, fpb, t)
-	} else {
-		amount = e.resolve(o.Amount, t)
+	amount, fpb := e.redistAmount(o, t)
+	var or *oracle
+	if !e.blind {
+		or = e.takeOracle(t)
 	}
-	exp, _ := e.expected(t)
-	spent, created := e.poolView()
-	outstanding := e.outstanding(t)
+	raw := e.callRedist(o.Outputs, amount, fpb)
+	if or == nil {
+		or = e.takeOracle(t)
+	}
+	return e.finishRedist(o, amount, fpb, or, raw)
+}
+
+func (e *env) finishRedist(o opSpec, amount, fpb types.Currency, or *oracle, raw redRaw) (failed bool) {
+	t, exp, spent, created, outstanding := or.t, or.exp, or.spent, or.created, or.outstanding
+	basis, txns, toSign, err, hi := raw.basis, raw.txns, raw.toSign, raw.err, raw.hi
+	cs := e.cm.TipState()
 	feeOut := make([]string, 11)
 	for k := 0; k <= 10; k++ {
 		var txn types.V2Transaction
 		for i := 0; i < k; i++ {
 			txn.SiacoinOutputs = append(txn.SiacoinOutputs, types.SiacoinOutput{Value: amount, Address: e.addr})
 		}
-		feeOut[k] = zlit(fpb.Mul64(cs.V2TransactionWeight(txn)))
+		w, over := fpb.Mul64WithOverflow(cs.V2TransactionWeight(txn))
+		if over {
+			w = maxCurrency
+		}
+		feeOut[k] = zlit(w)
 	}
-	basis, txns, toSign, err := e.w.Redistribute(o.Outputs, amount, fpb)
-	hi := e.clock()
+	fpi, over := fpb.Mul64WithOverflow(241)
+	if over {
+		fpi = maxCurrency
+	}
 	e.checkWindow(t)
 	what := fmt.Sprintf("Redistribute(outputs=%d, amount=%s, feePerByte=%s)", o.Outputs, curStr(amount), curStr(fpb))
-	e.trace = append(e.trace, fmt.Sprintf("(Redistribute %s %s %s [%s], None)", zint(o.Outputs), zlit(amount), zlit(fpb.Mul64(241)), strings.Join(feeOut, "; ")))
+	if amount.IsZero() && err != nil && raw.panicked == nil {
+		// an illegal argument, refused: outside the model (which describes amount > 0);
+		// what matters is that the refusal left nothing behind
+		e.stats["extreme:redistribute-zero-amount-refused"]++
+		e.trace = append(e.trace, "(Tick 0, None)")
+		e.observe("RUnit", t, true)
+		return true
+	}
+	if amount.Equals(maxCurrency) || amount.Equals(maxCurrency.Div64(2)) || fpb.Equals(maxCurrency) {
+		e.stats["extreme:redistribute-amount-or-fee-near-2^128"]++
+	}
+	e.trace = append(e.trace, fmt.Sprintf("(Redistribute %s %s %s [%s], None)", zint(o.Outputs), zlit(amount), zlit(fpi), strings.Join(feeOut, "; ")))
 	e.stats["redist"]++
 	if storeTip, _ := e.ws.Tip(); err == nil && len(txns) > 0 && basis != storeTip {
 		e.fail("redistribute-basis-not-store-tip", "Redistribute returned basis %v, the inputs and their Merkle proofs belong to the wallet store's tip %v (manager tip %v)", basis, storeTip, e.cm.Tip())
 	}
+	for _, v := range exp {
+		if v.Equals(amount) {
+			e.stats["boundary:redistribute-when-an-output-already-has-the-amount"]++
+			break
+		}
+	}
+	switch {
+	case o.Outputs <= 0:
+		e.stats["extreme:redistribute-outputs<=0"]++
+	case o.Outputs >= 1000:
+		e.stats["extreme:redistribute-outputs-huge"]++
+	case o.Outputs%10 <= 1 && o.Outputs >= 10:
+		e.stats["boundary:redistribute-outputs-at-batch-limit"]++
+	}
 	var res string
-	if err != nil {
+	if raw.panicked != nil {
+		failed = true
+		res = "RErr"
+		e.fail("wallet-panic", "%s panicked: %v", what, raw.panicked)
+	} else if err != nil {
 		failed = true
 		res = "RErr"
 		e.stats["redist:err"]++
@@ -973,7 +1285,6 @@ func (e *env) doRedist(o opSpec) (failed bool) {
 			if len(txn.SiacoinOutputs) > 0 && nAmt == len(txn.SiacoinOutputs) && nAmt > min(o.Outputs, 10) {
 				nAmt-- // a change output that happens to equal the amount
 			}
-			fpi := fpb.Mul64(241)
 			if need := amount.Mul64(uint64(nAmt)).Add(txn.MinerFee); inSum.Cmp(need) >= 0 {
 				ch := inSum.Sub(need)
 				one := types.NewCurrency64(1)
@@ -995,7 +1306,7 @@ func (e *env) doRedist(o opSpec) (failed bool) {
 				}
 			}
 			e.stats["redist:tx:feePerByte="+curStr(fpb)]++
-			f := &fundedTx{v2: true, v2txn: txn, toSignV2: toSign[i], basis: basis, inputs: sel, lo: t, hi: hi}
+			f := &fundedTx{v2: true, v2txn: txn, toSignV2: toSign[i], basis: basis, inputs: sel, txInputs: sel, lo: t, hi: hi}
 			e.funded = append(e.funded, f)
 			rs = append(rs, fmt.Sprintf("mk_rtx %s %s %s %s", nlist(e.aids(sel)), zint(len(txn.SiacoinOutputs)), zlit(outSum), zlit(txn.MinerFee)))
 		}
@@ -1021,36 +1332,83 @@ func (e *env) doRedist(o opSpec) (failed bool) {
 	return failed
 }
 
+type splRaw struct {
+	txn      types.V2Transaction
+	err      error
+	panicked any
+	hi       time.Duration
+}
+
+func (e *env) callSplit(n int, minAmt types.Currency) (raw splRaw) {
+	defer func() {
+		if p := recover(); p != nil {
+			raw.panicked = p
+		}
+		raw.hi = e.clock()
+	}()
+	raw.txn, raw.err = e.w.SplitUTXO(n, minAmt)
+	return
+}
+
 func (e *env) doSplit(o opSpec) (failed bool) {
 	t := e.begin()
 	minAmt := e.resolve(o.Min, t)
-	exp, _ := e.expected(t)
-	spent, created := e.poolView()
-	outstanding := e.outstanding(t)
+	var or *oracle
+	if !e.blind {
+		or = e.takeOracle(t)
+	}
+	fee := e.w.RecommendedFee().Mul64(2000)
+	raw := e.callSplit(o.N, minAmt)
+	if or == nil {
+		or = e.takeOracle(t)
+		// taken after the call: what the split transaction itself did to the pool is not part of the state before
+		for _, in := range raw.txn.SiacoinInputs {
+			delete(or.spent, in.Parent.ID)
+		}
+		for i := range raw.txn.SiacoinOutputs {
+			delete(or.created, raw.txn.EphemeralSiacoinOutput(i).ID)
+		}
+	}
+	return e.finishSplit(o, minAmt, fee, or, raw)
+}
+
+func (e *env) finishSplit(o opSpec, minAmt, fee types.Currency, or *oracle, raw splRaw) (failed bool) {
+	t, exp, spent, created, outstanding := or.t, or.exp, or.spent, or.created, or.outstanding
+	txn, err, hi := raw.txn, raw.err, raw.hi
 	for id := range created {
 		if pv2, ok := e.creatorV2(id); ok && pv2 && e.isReservedBefore(id, t) {
 			e.stats["split:with-reserved-unconfirmed-candidate"]++
 			break
 		}
 	}
-	fee := e.w.RecommendedFee().Mul64(2000)
-	txn, err := e.w.SplitUTXO(o.N, minAmt)
-	hi := e.clock()
 	e.checkWindow(t)
 	what := fmt.Sprintf("SplitUTXO(n=%d, minAmount=%s)", o.N, curStr(minAmt))
 	e.stats["split"]++
 	var res, opc string
 	switch {
+	case raw.panicked != nil:
+		failed = true
+		res = "RErr"
+		opc = fmt.Sprintf("(Split %s %s %s 0 [], None)", zint(o.N), zlit(minAmt), zlit(fee))
+		e.fail("wallet-panic", "%s panicked: %v", what, raw.panicked)
 	case err != nil:
 		failed = true
 		res = "RErr"
 		opc = fmt.Sprintf("(Split %s %s %s 0 [], None)", zint(o.N), zlit(minAmt), zlit(fee))
 		e.stats["split:err"]++
-		msg := err.Error()
-		for _, k := range []string{"exceeds defrag threshold", "greater than zero", "greater than 1", "no unspent", "cover miner fee", "too small to split", "broadcast", "transaction set"} {
-			if strings.Contains(msg, k) {
-				e.stats["split:err:"+k]++
-			}
+		// why, judged from the arguments (never from the wording of the error)
+		switch {
+		case e.spec.Cfg.Thresh < o.N:
+			e.stats["split:err:n-exceeds-defrag-threshold"]++
+		case minAmt.IsZero():
+			e.stats["split:err:min-amount-zero"]++
+		case o.N <= 1:
+			e.stats["split:err:n<=1"]++
+		default:
+			e.stats["split:err:nothing-large-enough-to-split"]++
+		}
+		if o.N < 0 || o.N >= 1000 || minAmt.Equals(maxCurrency) {
+			e.stats["extreme:split-arguments"]++
 		}
 	case len(txn.SiacoinInputs) == 0:
 		res = "RSplit None"
@@ -1086,7 +1444,7 @@ func (e *env) doSplit(o opSpec) (failed bool) {
 			newIDs = append(newIDs, e.aid(el.ID))
 		}
 		e.bsets = append(e.bsets, []types.TransactionID{txn.ID()})
-		e.funded = append(e.funded, &fundedTx{v2: true, v2txn: txn, inputs: []types.SiacoinOutputID{in}, lo: t, hi: hi, inPool: true, signed: true, basis: e.cm.Tip()})
+		e.funded = append(e.funded, &fundedTx{v2: true, v2txn: txn, inputs: []types.SiacoinOutputID{in}, txInputs: []types.SiacoinOutputID{in}, lo: t, hi: hi, inPool: true, signed: true, basis: e.cm.Tip()})
 		e.reserved[in] = reservation{t, hi}
 		delete(e.releasedIDs, in)
 		res = fmt.Sprintf("RSplit (Some (%d, [%s]))", e.aid(in), strings.Join(vals, "; "))
